@@ -315,18 +315,14 @@ Proof.
   apply obind_ok in H as (types & Hc & H).
   apply obind_ok in H as ([] & Hcons & H).
   apply obind_ok in H as ([] & Hmeta & H).
-  apply obind_ok in H as ([] & Hr & H).
-  apply obind_ok in H as ([] & _ & H).
-  apply obind_ok in H as ([] & Hacks & H).
-  apply obind_ok in H as ([] & _ & H).
-  apply obind_ok in H as ([] & Hcomm & _).
+  apply obind_ok in H as ([] & Hr & _).
   unfold gx_init.
   assert (E1 : all_ok (fun m : bytes * list (bytes * N) =>
-                 all_ok (fun kv : bytes * N => if (lenN (fst kv) =? 0) || (snd kv =? 0) then Panic else Ok tt) (snd m)) (gx_metadata g) = Ok tt).
+                 all_ok (fun kv : bytes * N => if lenN (fst kv) =? 0 then Panic else Ok tt) (snd m)) (gx_metadata g) = Ok tt).
   { apply all_ok_intro. intros m Hm. pose proof (all_ok_ok _ _ Hmeta m Hm) as Hm'. cbn in Hm'.
     destruct (assoc_type types (fst m)); [|discriminate].
     apply all_ok_intro. intros kv Hkv. pose proof (all_ok_ok _ _ Hm' kv Hkv) as Hkv'. cbn in Hkv'.
-    destruct ((lenN (fst kv) =? 0) || (snd kv =? 0)); [discriminate | reflexivity]. }
+    destruct (lenN (fst kv) =? 0); [discriminate | reflexivity]. }
   rewrite E1. cbn [obind].
   assert (E2 : all_ok (fun c : bytes * any client_state => match snd c with AnyVal _ => Ok tt | _ => Panic end) (gx_clients g) = Ok tt).
   { apply all_ok_intro. intros c Hin. destruct (gx_validate_clients_vals _ _ _ Hc c Hin) as (cs & ->). reflexivity. }
@@ -338,18 +334,11 @@ Proof.
     apply all_ok_intro. intros [h a] Hhc. pose proof (all_ok_ok _ _ H' _ Hhc) as H''. cbn in H''.
     destruct ((h_rev h =? 0) && (h_ht h =? 0) && negb (ctype_eqb c TETH) && negb (ctype_eqb c TBSC)); [discriminate|]. destruct a; try discriminate. reflexivity. }
   rewrite E3. cbn [obind].
-  assert (E4 : all_ok (fun r : gx_relayer => if rl_addr_len r =? 0 then Panic else Ok tt) (gx_relayers g) = Ok tt).
-  { apply all_ok_intro. intros r Hin. destruct (rl_addr_len r =? 0) eqn:E; [|reflexivity]. exfalso. apply N.eqb_eq in E.
-    destruct Hrel as [->|Hne].
-    - cbn in Hr. destruct (forallb relayer_ok (gx_relayers g)) eqn:Ex; [|discriminate].
-      rewrite forallb_forall in Ex. specialize (Ex r Hin). unfold relayer_ok in Ex. rewrite E in Ex. discriminate.
-    - exact (Hne r Hin E). }
-  rewrite E4. cbn [obind].
-  assert (Hpk : forall l, all_ok gx_validate_packet l = Ok tt ->
-                all_ok (fun p : gx_packet => if gp_data_len p =? 0 then Panic else Ok tt) l = Ok tt).
-  { intros l Hl. apply all_ok_intro. intros p Hp. pose proof (all_ok_ok _ _ Hl p Hp) as H'. unfold gx_validate_packet in H'.
-    destruct (gp_data_len p =? 0); [discriminate | reflexivity]. }
-  rewrite (Hpk _ Hacks). cbn [obind]. apply Hpk. exact Hcomm.
+  apply all_ok_intro. intros r Hin. destruct (rl_addr_len r =? 0) eqn:E; [|reflexivity]. exfalso. apply N.eqb_eq in E.
+  destruct Hrel as [->|Hne].
+  - cbn in Hr. destruct (forallb relayer_ok (gx_relayers g)) eqn:Ex; [|discriminate].
+    rewrite forallb_forall in Ex. specialize (Ex r Hin). unfold relayer_ok in Ex. rewrite E in Ex. discriminate.
+  - exact (Hne r Hin E).
 Qed.
 
 (** ** aggregate *)
